@@ -124,6 +124,7 @@ func rulesC01(c *Ctx, r *Report) {
 		fmt.Sprintf("wrapping is inconsistent: starts at 0: %v, step %d, window width %d (want equal, ≤ 80), loop bound %s (want %s), line format %q (want \"%%s\\n\"), MarshalText divides by %d", okInit, step, width, bound, seqLen, *line.format, mtC))
 	rulesPassAllFor(c, r, "formats/fasta", 3)
 	rulesNoBufferedPkg(c, r, "formats/fasta")
+	rulesWholeLines(c, r, "formats/fasta", "tokenizer")
 	rulesFastaAutomaton(c, r)
 }
 
